@@ -22,9 +22,11 @@ theorem TInv.frame {s s' : St} {t' : Tid} {pc' : PC} (h : TInv s t' pc')
     (hdn : ∀ n, priv pc' = some n → s'.data n = s.data n ∧ s'.mo n = s.mo n)
     (hel : ∀ e, pend pc' = some e → s'.used e = s.used e ∧ s'.retired e = s.retired e ∧ s'.home e = s.home e)
     (hdis : ∀ e, s.hp t' = some e → s'.disposed e = s.disposed e)
-    (hhome : ∀ e a, s.home e = some a → s'.home e = some a) :
+    (hhome : ∀ e a, s.home e = some a → s'.home e = some a)
+    (hused : ∀ e, s.used e = true → s'.used e = true)
+    (hkey : ∀ e, s.used e = true → s'.key e = s.key e) :
     TInv s' t' pc' := by
-  obtain ⟨a1,a2,a3,a4,a5,a6,a7,a8,a8',a9,a10,a11,a12,a13,a14,a15,a16,a17,a18,a19,a20,a21,a22⟩ := h
+  obtain ⟨a1,a2,a3,a4,a5,a6,a7,a8,a8',a9,a10,a11,a12,a13,a14,a15,a16,a17,a18,a19,a20,a21,a22,a23,a24,a25,a26,a27⟩ := h
   constructor
   · intro a ha; rw [hlk]; exact a1 a ha
   · intro a b hab; rw [hlk, hlt]; exact a2 a b hab
@@ -49,6 +51,14 @@ theorem TInv.frame {s s' : St} {t' : Tid} {pc' : PC} (h : TInv s t' pc')
   · intro e he; rw [hhp, hhv]; exact a20 e he
   · intro w hw; rw [hhp]; exact a21 w hw
   · intro e; rw [hhp, hhv]; exact a22 e
+  · intro j hj; have := a23 j hj; exact ⟨hused _ this.1, by rw [hkey _ this.1]; exact this.2⟩
+  · intro j k pv hj hw; have := a24 j k pv hj hw
+    exact ⟨this.1, fun v hv => ⟨hused _ (this.2 v hv).1, by rw [hkey _ (this.2 v hv).1]; exact (this.2 v hv).2⟩⟩
+  · intro j p hj hp; have := a25 j p hj hp
+    exact ⟨fun v hv => ⟨hused _ (this.1 v hv).1, by rw [hkey _ (this.1 v hv).1]; exact (this.1 v hv).2⟩,
+      fun f hf => ⟨hused _ (this.2.1 f hf).1, by rw [hkey _ (this.2.1 f hf).1]; exact (this.2.1 f hf).2⟩, this.2.2⟩
+  · exact a26
+  · intro j cur e hpc; have := a27 j cur e hpc; exact ⟨hused _ this.1, by rw [hkey _ this.1]; exact this.2⟩
 
 /-- Nothing but program counters changed. -/
 theorem TInv.same {s s' : St} {t' : Tid} {pc' : PC} (h : TInv s t' pc')
@@ -56,7 +66,7 @@ theorem TInv.same {s s' : St} {t' : Tid} {pc' : PC} (h : TInv s t' pc')
   rw [e]
   exact h.frame rfl rfl rfl (Nat.le_refl _) rfl rfl rfl (fun _ _ => rfl) (fun _ _ => rfl)
     (fun _ _ => ⟨rfl, rfl⟩) (fun _ _ => ⟨rfl, rfl⟩) (fun _ _ => ⟨rfl, rfl⟩) (fun _ _ => ⟨rfl, rfl, rfl⟩)
-    (fun _ _ => rfl) (fun _ _ h => h)
+    (fun _ _ => rfl) (fun _ _ h => h) (fun _ h => h) (fun _ _ => rfl)
 
 /-- A per-thread resource (`priv`, `pend`) stays exclusive when the stepping thread keeps what it had or takes
     something nobody else has. -/
@@ -137,24 +147,33 @@ theorem sinv_pc_only {s : St} {t : Tid} (h : SInv s) (Y : PC)
   · intro e he t0 h0 hc; exact h0 (h.upend t0 t e hc (hpend e he))
 
 macro "projs" : tactic =>
-  `(tactic| simp only [wPrev, wCur, wInner, posOf, lpos, ppos, adjOf, priv, pend, moving, holds, casNode, unval, Purp.pos_fprev,
+  `(tactic| simp only [wPrev, wCur, wInner, posOf, lpos, ppos, adjOf, priv, pend, moving, holds, casNode, unval, jobOf, walkKV, ctorOf, Purp.job_fprev, Purp.job_ins, Purp.job_find,
+      Purp.job_contains, Purp.job_erase, Purp.pos_fprev,
       Purp.pos_ins, Purp.pos_find, Purp.pos_contains, Purp.pos_erase, Purp.elem_fprev, Purp.elem_ins, Purp.elem_find,
       Purp.elem_contains, Purp.elem_erase, Option.map_some, Option.map_none, Option.some.injEq, reduceCtorEq, false_implies, implies_true,
       forall_const, Prod.mk.injEq, and_imp, forall_eq', forall_eq, forall_apply_eq_imp_iff, false_or, or_false,
-      imp_self, PC.wNext.injEq, PC.wTail.injEq] at *)
+      imp_self, PC.wNext.injEq, PC.wTail.injEq, PC.updCas.injEq] at *)
 
 set_option hygiene false in
 /-- Unpack the facts of the stepping thread at its current program counter, and the chain order. -/
 macro "unpack" h:ident hpc:ident t:ident : tactic =>
   `(tactic| (have ht := ($h).thr $t; rw [$hpc:ident] at ht;
-             obtain ⟨a1,a2,a3,a4,a5,a6,a7,a8,a8',a9,a10,a11,a12,a13,a14,a15,a16,a17,a18,a19,a20,a21,a22⟩ := ht;
+             obtain ⟨a1,a2,a3,a4,a5,a6,a7,a8,a8',a9,a10,a11,a12,a13,a14,a15,a16,a17,a18,a19,a20,a21,a22,a23,a24,a25,a26,a27⟩ := ht;
              obtain ⟨o1,o2,o3,o4,o5,o6,o7,o8,o9,o10,o11,o12,o13,o14⟩ := ($h).ord;
-             have hown := fun a => ($h).own a $t; simp only [$hpc:ident] at hown))
+             have hown := fun a => ($h).own a $t; simp only [$hpc:ident] at hown;
+             have ehd := ($h).elem.hdnil; have etl := ($h).elem.tlnil))
+
+set_option hygiene false in
+/-- Close a goal about the new program counter: first without the (expensive) order axioms, then with them. -/
+macro "tfin" : tactic =>
+  `(tactic| first
+      | (clear o6 o8 o9 o10 o11 o12 o13; grind [hd, tl, upd])
+      | grind [hd, tl, upd])
 
 /-- The four obligations of `sinv_pc_only`, by evaluation of the projections. -/
 macro "pconly" h:ident hpc:ident : tactic =>
   `(tactic| (apply sinv_pc_only $h
-             · constructor <;> intros <;> projs <;> (try grind [hd, tl])
+             · constructor <;> intros <;> projs <;> (try tfin)
              · rw [$hpc:ident]; intros; projs <;> (try grind)
              · rw [$hpc:ident]; intros; projs <;> (try grind)
              · rw [$hpc:ident]; intros; projs <;> (try grind)))
@@ -181,10 +200,12 @@ theorem step_wLd1 {s : St} {t : Tid} {pu : Purp} {k : Int} {prev cur : Nat} {pv 
 theorem concl_cases (pu : Purp) (k : Int) (prev : Nat) (pv : Option Nat) (cur : Nat) (fnd : Option Nat) (eq : Bool) :
     (∃ r, pu.pos = none ∧ concl pu k prev pv cur fnd eq = .done r) ∨
     (∃ e, pu = .erase ∧ fnd = some e ∧ concl pu k prev pv cur fnd eq = .eraseCas k cur e) ∨
-    (∃ j e, pu = .ins j ∧ fnd = some e ∧ concl pu k prev pv cur fnd eq = .updCas j cur e) ∨
-    (∃ j, pu = .ins j ∧ concl pu k prev pv cur fnd eq = .lMarkCur j ⟨prev, cur, fnd, pv⟩) ∨
+    (∃ j e, pu = .ins j ∧ fnd = some e ∧ eq = true ∧ concl pu k prev pv cur fnd eq = .updCas j cur e) ∨
+    (∃ j, pu = .ins j ∧ (∀ e, fnd = some e → eq = false) ∧
+      concl pu k prev pv cur fnd eq = .lMarkCur j ⟨prev, cur, fnd, pv⟩) ∨
     (∃ j p, pu = .fprev j p ∧ prev = p.prev ∧ p.prev ≠ hd ∧ p.pv = none ∧ concl pu k prev pv cur fnd eq = .lReuse j p) ∨
-    (∃ j p, pu = .fprev j p ∧ prev = p.prev ∧ concl pu k prev pv cur fnd eq = .lCtor1 j p) ∨
+    (∃ j p, pu = .fprev j p ∧ prev = p.prev ∧ (p.pv = none → p.prev = hd) ∧
+      concl pu k prev pv cur fnd eq = .lCtor1 j p) ∨
     (∃ j p, pu = .fprev j p ∧ concl pu k prev pv cur fnd eq = .lRelPrev j p false) := by
   cases pu with
   | find => left; cases fnd <;> cases eq <;> simp [concl, Purp.pos]
@@ -205,23 +226,47 @@ theorem concl_cases (pu : Purp) (k : Int) (prev : Nat) (pv : Option Nat) (cur : 
     split
     · split
       · right; right; right; right; left; exact ⟨j, p, rfl, ‹_›, (‹_ ∧ _›).1, (‹_ ∧ _›).2, rfl⟩
-      · right; right; right; right; right; left; exact ⟨j, p, rfl, ‹_›, rfl⟩
+      · right; right; right; right; right; left
+        refine ⟨j, p, rfl, ‹_›, ?_, rfl⟩
+        intro hpv
+        rename_i hnot
+        exact Classical.byContradiction fun hne => hnot ⟨hne, hpv⟩
     · right; right; right; right; right; right; exact ⟨j, p, rfl, rfl⟩
 
-set_option maxHeartbeats 4000000 in
-/-- Walk reached `( prev, cur )` and concludes: the facts of the walk carry over to whatever comes next. -/
+theorem proceed_cases (j : Job) (p : Pos) :
+    (p.prev ≠ hd ∧ p.pv = none ∧ proceed j p = .lReuse j p) ∨ ((p.pv = none → p.prev = hd) ∧ proceed j p = .lCtor1 j p) := by
+  unfold proceed
+  split
+  · left; exact ⟨(‹_ ∧ _›).1, (‹_ ∧ _›).2, rfl⟩
+  · right
+    rename_i hnot
+    exact ⟨fun hpv => Classical.byContradiction fun hne => hnot ⟨hne, hpv⟩, rfl⟩
+
+/-- A linked node whose `next` points to itself is the tail. -/
+theorem self_loop_tail {s : St} (h : SInv s) {a : Nat} (hl : s.lk a = true) (hn : s.next a = a) : a = 2 := by
+  cases Nat.decEq a 2 with
+  | isTrue e => exact e
+  | isFalse e =>
+    have := h.ord.nx a hl e
+    rw [hn, h.ord.irr] at this; cases this
+
+set_option maxHeartbeats 8000000 in
+/-- Walk reached `( prev, cur )` and concludes: the facts of the walk carry over to whatever comes next.
+    `fnd`/`eq` are what the walk saw in `cur`: nothing (`cur` is the tail), or an element whose key is `≥ k`. -/
 theorem sinv_concl {s : St} {t : Tid} {pu : Purp} {k : Int} {prev cur : Nat} {pv fnd : Option Nat} {eq : Bool}
     {X : PC} (h : SInv s) (hpc : s.pc t = X)
-    (hX : X = .wTail pu k prev pv cur ∨ ∃ w, X = .wLd2 pu k prev pv cur w) :
+    (hX : X = .wTail pu k prev pv cur ∨ ∃ w, X = .wLd2 pu k prev pv cur w)
+    (hf : ∀ e, fnd = some e → s.used e = true ∧ k ≤ s.key e ∧ (eq = true ↔ s.key e = k))
+    (hn : fnd = none → cur = 2) :
     SInv { s with pc := upd s.pc t (concl pu k prev pv cur fnd eq) } := by
   have ht := h.thr t
   obtain ⟨o1,o2,o3,o4,o5,o6,o7,o8,o9,o10,o11,o12,o13,o14⟩ := h.ord
-  rcases hX with hX | ⟨w, hX⟩ <;> subst hX <;> rw [hpc] at ht <;>
-    obtain ⟨a1,a2,a3,a4,a5,a6,a7,a8,a8',a9,a10,a11,a12,a13,a14,a15,a16,a17,a18,a19,a20,a21,a22⟩ := ht <;>
-    rcases concl_cases pu k prev pv cur fnd eq with ⟨r, hpn, hc⟩ | ⟨e, rfl, rfl, hc⟩ | ⟨j, e, rfl, rfl, hc⟩ | ⟨j, rfl, hc⟩ |
-      ⟨j, p, rfl, rfl, hp1, hp2, hc⟩ | ⟨j, p, rfl, rfl, hc⟩ | ⟨j, p, rfl, hc⟩ <;>
+  have hown := fun a => h.own a t
+  rcases hX with hX | ⟨w, hX⟩ <;> subst hX <;> rw [hpc] at ht <;> simp only [hpc] at hown <;>
+    obtain ⟨a1,a2,a3,a4,a5,a6,a7,a8,a8',a9,a10,a11,a12,a13,a14,a15,a16,a17,a18,a19,a20,a21,a22,a23,a24,a25,a26,a27⟩ := ht <;>
+    rcases concl_cases pu k prev pv cur fnd eq with ⟨r, hpn, hc⟩ | ⟨e, rfl, rfl, hc⟩ | ⟨j, e, rfl, rfl, heq, hc⟩ |
+      ⟨j, rfl, hneq, hc⟩ | ⟨j, p, rfl, rfl, hp1, hp2, hc⟩ | ⟨j, p, rfl, rfl, hp1, hc⟩ | ⟨j, p, rfl, hc⟩ <;>
     rw [hc] <;> pconly h hpc
-
 
 theorem step_wTail_in {s : St} {t : Tid} {pu : Purp} {k : Int} {prev cur : Nat} {pv : Option Nat}
     (h : SInv s) (hpc : s.pc t = .wTail pu k prev pv cur) (hne : ¬ s.next cur = cur) :
@@ -236,7 +281,8 @@ theorem step_wLd2_retry {s : St} {t : Tid} {pu : Purp} {k : Int} {prev cur : Nat
   pconly h hpc
 
 theorem step_wLd2_on {s : St} {t : Tid} {pu : Purp} {k : Int} {prev cur : Nat} {pv x : Option Nat} {w : DW}
-    (h : SInv s) (hpc : s.pc t = .wLd2 pu k prev pv cur w) :
+    (h : SInv s) (hpc : s.pc t = .wLd2 pu k prev pv cur w)
+    (hx : ∀ v, x = some v → s.used v = true ∧ s.key v < k) :
     SInv { s with pc := upd s.pc t (.wNext pu k cur x) } := by
   unpack h hpc t
   pconly h hpc
@@ -314,7 +360,7 @@ theorem step_lMarkCur_ok {s : St} {t : Tid} {j : Job} {p : Pos} (h : SInv s) (hp
   · exact bit_upd h.bit _ _ _ (by simp)
   · intro a ha; dsimp only at ha; have := hown a; projs; grind [upd]
   · intro a t0 h0 ha; dsimp only at ha; grind [upd]
-  · constructor <;> intros <;> projs <;> (try dsimp only) <;> (try grind [upd])
+  · constructor <;> intros <;> projs <;> (try dsimp only) <;> (try tfin)
   · intro t0 h0; exact TInv.frame_data h h0 _ _ _ _ hlk (Or.inl hmo)
   · keep hpc
   · keep hpc
@@ -341,7 +387,7 @@ theorem step_lMarkPrev_ok {s : St} {t : Tid} {j : Job} {p : Pos} (h : SInv s) (h
   · exact bit_upd h.bit _ _ _ (by simp)
   · intro a ha; dsimp only at ha; have := hown a; projs; grind [upd]
   · intro a t0 h0 ha; dsimp only at ha; grind [upd]
-  · constructor <;> intros <;> projs <;> (try dsimp only) <;> (try grind [upd])
+  · constructor <;> intros <;> projs <;> (try dsimp only) <;> (try tfin)
   · intro t0 h0; exact TInv.frame_data h h0 _ _ _ _ hlk (Or.inl hmo)
   · keep hpc
   · keep hpc
@@ -357,7 +403,7 @@ theorem step_lChkNext_ok {s : St} {t : Tid} {j : Job} {p : Pos} (h : SInv s) (hp
   unpack h hpc t
   split
   · pconly h hpc
-  · unfold proceed; split <;> pconly h hpc
+  · rcases proceed_cases j p with ⟨hp1, hp2, hc⟩ | ⟨hp1, hc⟩ <;> rw [hc] <;> pconly h hpc
 
 theorem step_lChkNext_fail {s : St} {t : Tid} {j : Job} {p : Pos} (h : SInv s) (hpc : s.pc t = .lChkNext j p) :
     SInv { s with pc := upd s.pc t (.lRelPrev j p false) } := by
@@ -381,7 +427,7 @@ theorem step_lRelPrev {s : St} {t : Tid} {j : Job} {p : Pos} {ok : Bool} (h : SI
   · exact bit_upd h.bit _ _ _ (by simp)
   · intro a ha; dsimp only at ha; have := hown a; projs; grind [upd]
   · intro a t0 h0 ha; dsimp only at ha; grind [upd]
-  · constructor <;> intros <;> projs <;> (try dsimp only) <;> (try grind [upd])
+  · constructor <;> intros <;> projs <;> (try dsimp only) <;> (try tfin)
   · intro t0 h0; exact TInv.frame_data h h0 _ _ _ _ hlk (Or.inr hmo)
   · keep hpc
   · keep hpc
@@ -404,7 +450,7 @@ theorem step_lRelCur {s : St} {t : Tid} {j : Job} {p : Pos} {ok : Bool} (h : SIn
   · intro a ha; dsimp only at ha; have := hown a; projs; grind [upd]
   · intro a t0 h0 ha; dsimp only at ha; grind [upd]
   · cases ok <;> simp only [Bool.false_eq_true, ↓reduceIte] <;>
-      constructor <;> intros <;> projs <;> (try dsimp only) <;> (try grind [upd])
+      constructor <;> intros <;> projs <;> (try dsimp only) <;> (try tfin)
   · intro t0 h0; exact TInv.frame_data h h0 _ _ _ _ hlk (Or.inr hmo)
   · cases ok <;> simp only [Bool.false_eq_true, ↓reduceIte] <;> keep hpc
   · cases ok <;> simp only [Bool.false_eq_true, ↓reduceIte] <;> keep hpc
